@@ -3,9 +3,7 @@
 
    Reading guide.  `step s o = (s', out)` is one handler invocation on the miner actor (Model/Penalty.v):
    `charged out` is the sum of the penalties the handler applied, `burnt out` what it sent to the
-   burnt-funds actor (id 99), `reporter_paid out` what it sent to the reporter, `kept out` the part of a
-   consensus-fault reporter reward that was taken out of the fee debt but neither paid (the transfer
-   failed) nor burnt (finding F5).  Oracle inputs (expected-reward projections r, vested amounts v, replies
+   burnt-funds actor (id 99), `reporter_paid out` what it sent to the reporter.  Oracle inputs (expected-reward projections r, vested amounts v, replies
    of nested sends, results of the un-modelled sector bookkeeping) are universally quantified. *)
 From Coq Require Import ZArith List Bool String.
 From VF Require Import Gen.Consts Gen.PenaltyConsts Gen.Gated Base.Corr Model.Penalty Proofs.Penalty_lemmas.
@@ -77,47 +75,25 @@ Theorem C15_continued_fault_charged :
                 match chain with Some et => et_fee et | None => 0 end /\
   pledge_penalty_for_continued_fault ff = ff /\ 0 <= ff /\ 0 <= dep /\ ff <= charged out /\
   fee_debt s' + burnt out = fee_debt s + charged out /\ 0 <= burnt out /\
-  reporter_paid out = 0 /\ kept out = 0 /\ paid_out out = 0.
+  reporter_paid out = 0 /\ paid_out out = 0.
 Proof. exact c15_continued_fault_charged. Qed.
 
-(* ---- penalty accounting.
-   The property as stated: for every penalised event
-       fee_debt' + burnt + reporter_paid = fee_debt + charged.
-   REFUTED by the faithful model when the consensus-fault reporter's transfer fails (F5, reproduced on
-   the real code): report_consensus_fault takes burn + reward out of the fee debt, tolerates the failure
-   of the reporter send and burns only `burn`. ---- *)
-Theorem C15_penalty_accounting_refuted_under_reporter_failure :
-  exists s o, check_balance_invariants s = true /\
-    let '(s', out) := step s o in
-    code out = 0 /\ reporter_failure o out /\
-    fee_debt s' + burnt out + reporter_paid out <> fee_debt s + charged out.
-Proof. exact f5_witness. Qed.
-
-(* what is true for every operation and all inputs: the equation holds with the kept reward accounted
-   for, every term is non-negative, the kept part is non-zero only under a reporter-transfer failure of
-   report_consensus_fault, and value only ever goes to the burnt-funds actor, to the reporter (dispute /
-   consensus fault) or to the withdrawal payee; everything else is a zero-value call to the power, reward
-   or market actor.  A rejected operation changes nothing. *)
+(* ---- penalty accounting, for every operation and all inputs (including every pattern of failing
+        nested sends): what is charged is burnt at once, paid to the reporter, or recorded as fee debt;
+        every term is non-negative; value only ever goes to the burnt-funds actor, to the reporter
+        (dispute / consensus fault) or to the withdrawal payee, everything else is a zero-value call to
+        the power, reward or market actor.  A rejected operation changes nothing.
+        (History: before the repair of finding F5 in /repo -- fixes/F5_burn_unsent_reporter_reward.diff --
+        report_consensus_fault kept the reporter reward in the miner's balance when its transfer failed,
+        and this statement was refuted by a vm_compute witness.) ---- *)
 Theorem C15_penalty_accounting : forall s o s' out, 0 <= fee_debt s -> step s o = (s', out) ->
-  fee_debt s' + burnt out + reporter_paid out + kept out = fee_debt s + charged out /\
-  0 <= fee_debt s' /\ 0 <= charged out /\ 0 <= burnt out /\ 0 <= reporter_paid out /\ 0 <= kept out /\
-  (kept out <> 0 -> reporter_failure o out) /\
-  (~ reporter_failure o out -> fee_debt s' + burnt out + reporter_paid out = fee_debt s + charged out) /\
+  fee_debt s' + burnt out + reporter_paid out = fee_debt s + charged out /\
+  0 <= fee_debt s' /\ 0 <= charged out /\ 0 <= burnt out /\ 0 <= reporter_paid out /\
   Forall (send_ok (recipient o)) (sends out) /\
   ((forall a b c d e f g, o <> Withdraw a b c d e f g) -> paid_out out = 0) /\
   (code out = 0 -> charged out = expected_charge o) /\
   (code out <> 0 -> s' = s /\ out = fail (code out)).
 Proof. exact c15_penalty_accounting. Qed.
-
-(* under the failure the discrepancy is exactly the clamped reporter reward, and nothing is paid *)
-Theorem C15_discrepancy_is_exactly_the_reward :
-  forall s rep e f er v rps s' out, 0 <= fee_debt s ->
-  step s (ReportFault rep e f er v rps) = (s', out) ->
-  reporter_send_failed rep (sends out) ->
-  reporter_paid out = 0 /\
-  fee_debt s + charged out - (fee_debt s' + burnt out + reporter_paid out) = kept out /\
-  kept out = Z.min (fee_debt s + charged out - fee_debt s') (reward_for_consensus_slash_report er).
-Proof. exact c15_discrepancy. Qed.
 
 (* ---- the reporter never gets more than was actually taken from the miner, nor more than the policy
         reward (epoch reward / 20 for a consensus fault, 4 FIL for a disputed PoSt) ---- *)
@@ -130,7 +106,7 @@ Proof. exact c15_reporter_reward_le_taken. Qed.
 
 (* ---- penalties are never negative: a handler that applies a negative amount is rejected ---- *)
 Theorem C15_penalties_nonneg : forall s o s' out, 0 <= fee_debt s -> step s o = (s', out) ->
-  0 <= charged out /\ (code out = 0 -> 0 <= expected_charge o) /\ fee_debt s <= fee_debt s' + burnt out + reporter_paid out + kept out.
+  0 <= charged out /\ (code out = 0 -> 0 <= expected_charge o) /\ fee_debt s <= fee_debt s' + burnt out + reporter_paid out.
 Proof. exact c15_penalties_nonneg. Qed.
 
 (* ---- the debt gate: when the fee debt exceeds the unlocked balance the handler's gate sees, every
@@ -152,22 +128,14 @@ Theorem C15_gated_success_clears_debt : forall s o name s' out, 0 <= fee_debt s 
   fee_debt s' = 0 /\ burnt out = fee_debt s /\ charged out = 0.
 Proof. exact gated_success_clears_debt. Qed.
 
-(* ---- whole histories: over any sequence of operations the fee debt at the end plus everything burnt,
-        paid to reporters and kept equals the initial debt plus everything charged; without a
-        reporter-transfer failure nothing is kept ---- *)
+(* ---- whole histories: over any sequence of operations the fee debt at the end plus everything burnt
+        and paid to reporters equals the initial debt plus everything charged ---- *)
 Theorem C15_history_accounting : forall ops s, 0 <= fee_debt s ->
-  fee_debt (run s ops) + sumf burnt (outs s ops) + sumf reporter_paid (outs s ops) + sumf kept (outs s ops)
+  fee_debt (run s ops) + sumf burnt (outs s ops) + sumf reporter_paid (outs s ops)
     = fee_debt s + sumf charged (outs s ops) /\
   0 <= fee_debt (run s ops) /\ 0 <= sumf burnt (outs s ops) /\ 0 <= sumf reporter_paid (outs s ops) /\
-  0 <= sumf kept (outs s ops) /\ 0 <= sumf charged (outs s ops).
+  0 <= sumf charged (outs s ops).
 Proof. exact history_accounting. Qed.
-
-Theorem C15_history_exact_without_reporter_failure : forall ops s, 0 <= fee_debt s ->
-  no_reporter_failure s ops ->
-  sumf kept (outs s ops) = 0 /\
-  fee_debt (run s ops) + sumf burnt (outs s ops) + sumf reporter_paid (outs s ops)
-    = fee_debt s + sumf charged (outs s ops).
-Proof. exact history_exact_without_reporter_failure. Qed.
 
 (* ---- non-vacuity: an insolvent miner (2 FIL unlocked, 30 FIL vesting of which 1 vested, 5 FIL pledge):
    a deadline end with a continued-fault fee of 3 FIL, an early termination, a gated call rejected in
@@ -181,7 +149,7 @@ Definition ex_ops : list op :=
     Dispute 1001 0 0 (2 * ex_fil) 0 true [];
     DeclareRecovered 100 0 0 0 [];
     Terminate 0 true false ex_et [];
-    ReportFault 1001 200 (Some (true, 150)) (40 * ex_fil) 0 [];
+    ReportFault 1001 200 (Some (true, 150)) (40 * ex_fil) 0 [0; 18];
     Other (100 * ex_fil) 0 0;
     RepayDebt 0 0 [];
     DeclareRecovered 2000 0 0 0 [] ].
